@@ -572,3 +572,203 @@ Section Unmarked.
       + destruct (HG x Hx) as [d [Hd [Hf _]]]. rewrite Hf. simpl. apply (Ha d (or_intror Hd)).
   Qed.
 End Unmarked.
+
+(* ------------------------------------------------------------------ *)
+(* assembled statements about Scan.recognize / next_tokens              *)
+
+Section Assembled.
+  Variable terms : list term_info.
+  Variable rx : N -> N -> option N.
+  Variable pos : N.
+
+  Theorem recognize_marks : forall acts cell flags,
+    map fst acts = map c_id cell -> terms_agree terms cell -> prior_sorted cell ->
+    recognize terms rx acts flags pos None [] = marks_scan rx pos (map to_lterm cell) flags.
+  Proof.
+    intros acts cell flags Hm Ha Hs.
+    rewrite (recognize_cell terms rx pos acts cell Hm Ha). apply rec_marks. exact Hs.
+  Qed.
+
+  Theorem scan_eq_doc : forall acts cell,
+    map fst acts = map c_id cell -> terms_agree terms cell ->
+    sorted_by_impl cell -> short_texts cell -> unmarked cell ->
+    rx_nonempty rx pos cell -> str_len_ok rx pos cell -> no_str_tie rx pos cell ->
+    lexical_disambiguation terms (recognize terms rx acts (impl_flags cell) pos None [])
+    = doc_choice rx pos (map to_lterm cell).
+  Proof.
+    intros acts cell Hm Ha Hsi Hst Hu Hne Hsl Hnt.
+    pose proof (sorted_by_impl_key_sorted cell Hsi Hst) as Hk.
+    rewrite (recognize_marks acts cell _ Hm Ha (key_sorted_prior_sorted _ Hk)).
+    unfold impl_flags. rewrite finish_flags_ffwd.
+    apply marks_unmarked_doc; assumption.
+  Qed.
+
+  Theorem lexdis_off : forall acts cell flags,
+    map fst acts = map c_id cell -> terms_agree terms cell -> prior_sorted cell ->
+    Forall (fun f => f = false) flags ->
+    recognize terms rx acts flags pos None [] = doc_all rx pos (map to_lterm cell).
+  Proof.
+    intros acts cell flags Hm Ha Hs Hf.
+    rewrite (recognize_marks acts cell flags Hm Ha Hs). apply marks_false_doc_all; assumption.
+  Qed.
+
+  (* everything the scanner returns is a match of an expected terminal *)
+  Lemma group_scan_In : forall r P flags t,
+    In t (group_scan rx pos P (map to_lterm r) flags) ->
+    exists d, In d r /\ fst t = c_id d /\ rx (c_id d) pos = Some (snd t).
+  Proof.
+    induction r as [|c r IH]; intros P flags t H; simpl in H; [contradiction|].
+    destruct (c_prior c =? P); [|contradiction].
+    destruct (rx (c_id c) pos) eqn:E.
+    - destruct (hd false flags).
+      + destruct H as [H|[]]. subst t. exists c. simpl. auto.
+      + destruct H as [H|H].
+        * subst t. exists c. simpl. auto.
+        * destruct (IH _ _ _ H) as [d [Hd Hx]]. exists d. split; [right; exact Hd|exact Hx].
+    - destruct (IH _ _ _ H) as [d [Hd Hx]]. exists d. split; [right; exact Hd|exact Hx].
+  Qed.
+
+  Lemma marks_scan_In : forall cell flags t,
+    In t (marks_scan rx pos (map to_lterm cell) flags) ->
+    exists d, In d cell /\ fst t = c_id d /\ rx (c_id d) pos = Some (snd t).
+  Proof.
+    induction cell as [|c r IH]; intros flags t H; simpl in H; [contradiction|].
+    destruct (rx (c_id c) pos) eqn:E.
+    - destruct (hd false flags).
+      + destruct H as [H|[]]. subst t. exists c. simpl. auto.
+      + destruct H as [H|H].
+        * subst t. exists c. simpl. auto.
+        * destruct (group_scan_In _ _ _ _ H) as [d [Hd Hx]]. exists d. split; [right; exact Hd|exact Hx].
+    - destruct (IH _ _ H) as [d [Hd Hx]]. exists d. split; [right; exact Hd|exact Hx].
+  Qed.
+
+  (* STOP (length 0) loses against any real token *)
+  Lemma max_len_attained : forall toks : list (N * N), toks <> [] ->
+    exists x, In x toks /\ snd x = max_len toks.
+  Proof.
+    induction toks as [|a toks IH]; intros H; [congruence|].
+    destruct toks as [|b toks'].
+    - exists a. split; [left; reflexivity|]. simpl. lia.
+    - destruct IH as [x [Hx Hm]]; [discriminate|].
+      change (max_len (a :: b :: toks')) with (N.max (snd a) (max_len (b :: toks'))).
+      destruct (N.max_spec (snd a) (max_len (b :: toks'))) as [[_ E]|[_ E]]; rewrite E.
+      + exists x. split; [right; exact Hx|exact Hm].
+      + exists a. split; [left; reflexivity|reflexivity].
+  Qed.
+
+  Lemma lexdis_nonempty : forall toks, toks <> [] -> lexical_disambiguation terms toks <> [].
+  Proof.
+    intros toks H. destruct toks as [|a [|b toks]]; [congruence|discriminate|].
+    remember (a :: b :: toks) as T eqn:HT.
+    assert (E : lexical_disambiguation terms T =
+                let longest := filter (fun t => snd t =? max_len T) T in
+                match longest with
+                | [_] => longest
+                | _ => let pref := filter (fun t => prefer_of terms (fst t)) longest in
+                       match pref with [] => longest | _ => pref end
+                end) by (rewrite HT; reflexivity).
+    rewrite E. cbv zeta.
+    destruct (max_len_attained T H) as [x [Hx Hm]].
+    assert (Hin : In x (filter (fun t => snd t =? max_len T) T))
+      by (apply filter_In; split; [exact Hx|apply N.eqb_eq; exact Hm]).
+    destruct (filter (fun t => snd t =? max_len T) T) as [|l1 [|l2 L]] eqn:HL.
+    - contradiction.
+    - discriminate.
+    - destruct (filter (fun t => prefer_of terms (fst t)) (l1 :: l2 :: L)); discriminate.
+  Qed.
+
+  Lemma lexdis_stop_drop : forall s toks,
+    toks <> [] -> (forall t, In t toks -> 1 <= snd t) ->
+    lexical_disambiguation terms ((s, 0) :: toks) = lexical_disambiguation terms toks.
+  Proof.
+    intros s toks Hne Hge.
+    destruct (max_len_attained toks Hne) as [x [Hx Hm]].
+    assert (Hpos : 1 <= max_len toks) by (rewrite <- Hm; apply Hge; exact Hx).
+    destruct toks as [|a toks']; [congruence|].
+    assert (E : lexical_disambiguation terms ((s, 0) :: a :: toks') =
+                let longest := filter (fun t => snd t =? max_len ((s, 0) :: a :: toks'))
+                                      ((s, 0) :: a :: toks') in
+                match longest with
+                | [_] => longest
+                | _ => let pref := filter (fun t => prefer_of terms (fst t)) longest in
+                       match pref with [] => longest | _ => pref end
+                end) by reflexivity.
+    rewrite E. clear E. cbv zeta.
+    change (max_len ((s, 0) :: a :: toks')) with (N.max 0 (max_len (a :: toks'))).
+    rewrite N.max_0_l.
+    assert (Hs : (snd (s, 0) =? max_len (a :: toks')) = false) by (apply N.eqb_neq; change (snd (s, 0)) with 0; lia).
+    change (filter (fun t : N * N => snd t =? max_len (a :: toks')) ((s, 0) :: a :: toks'))
+      with (if snd (s, 0) =? max_len (a :: toks')
+            then (s, 0) :: filter (fun t : N * N => snd t =? max_len (a :: toks')) (a :: toks')
+            else filter (fun t : N * N => snd t =? max_len (a :: toks')) (a :: toks')).
+    rewrite Hs.
+    destruct toks' as [|b toks''].
+    - (* a single real token *)
+      simpl. replace (N.max (snd a) 0) with (snd a) by lia. rewrite N.eqb_refl. reflexivity.
+    - reflexivity.
+  Qed.
+
+  Variable in_len : N.
+  Variable stop_id : N.
+  Variable consume_input : bool.
+
+  Definition stop_ok (st : state) : bool := has_key stop_id (st_actions st) && negb consume_input.
+
+  Theorem next_tokens_doc : forall st cell,
+    cell_of_state st cell -> st_finish st = impl_flags cell -> terms_agree terms cell ->
+    sorted_by_impl cell -> short_texts cell -> unmarked cell ->
+    rx_nonempty rx pos cell -> str_len_ok rx pos cell -> no_str_tie rx pos cell ->
+    pos < in_len ->
+    next_tokens terms rx in_len stop_id consume_input true st pos
+    = doc_with_stop (stop_ok st) stop_id (doc_choice rx pos (map to_lterm cell)).
+  Proof.
+    intros st cell Hm Hfl Ha Hsi Hst Hu Hne Hsl Hnt Hpos.
+    pose proof (scan_eq_doc (st_actions st) cell Hm Ha Hsi Hst Hu Hne Hsl Hnt) as Hdoc.
+    pose proof (sorted_by_impl_key_sorted cell Hsi Hst) as Hk.
+    pose proof (recognize_marks (st_actions st) cell (impl_flags cell) Hm Ha
+                                (key_sorted_prior_sorted _ Hk)) as Hrm.
+    unfold next_tokens. rewrite Hfl.
+    assert (Hlt : pos <? in_len = true) by (apply N.ltb_lt; exact Hpos).
+    assert (Hneq : pos =? in_len = false) by (apply N.eqb_neq; lia).
+    rewrite Hlt, Hneq. rewrite orb_false_r. fold (stop_ok st).
+    set (R := recognize terms rx (st_actions st) (impl_flags cell) pos None []) in *.
+    destruct (stop_ok st).
+    - destruct R as [|a R'] eqn:HR.
+      + simpl. simpl in Hdoc. rewrite <- Hdoc. reflexivity.
+      + change ([(stop_id, 0)] ++ a :: R') with ((stop_id, 0) :: a :: R').
+        rewrite lexdis_stop_drop; [| discriminate |].
+        * rewrite Hdoc.
+          assert (Hn : doc_choice rx pos (map to_lterm cell) <> [])
+            by (rewrite <- Hdoc; apply lexdis_nonempty; discriminate).
+          destruct (doc_choice rx pos (map to_lterm cell)); [congruence|reflexivity].
+        * intros t Ht. rewrite Hrm in Ht. apply marks_scan_In in Ht.
+          destruct Ht as [d [Hd [_ Hr]]]. apply (Hne d (snd t) Hd Hr).
+    - simpl. rewrite Hdoc. destruct (doc_choice rx pos (map to_lterm cell)); reflexivity.
+  Qed.
+
+  Theorem next_tokens_lexdis_off : forall st cell,
+    cell_of_state st cell -> terms_agree terms cell -> prior_sorted cell ->
+    Forall (fun f => f = false) (st_finish st) -> pos < in_len ->
+    next_tokens terms rx in_len stop_id consume_input false st pos
+    = (if stop_ok st then [(stop_id, 0)] else []) ++ doc_all rx pos (map to_lterm cell).
+  Proof.
+    intros st cell Hm Ha Hs Hf Hpos. unfold next_tokens.
+    assert (Hlt : pos <? in_len = true) by (apply N.ltb_lt; exact Hpos).
+    assert (Hneq : pos =? in_len = false) by (apply N.eqb_neq; lia).
+    rewrite Hlt, Hneq. rewrite orb_false_r. fold (stop_ok st).
+    rewrite (lexdis_off (st_actions st) cell (st_finish st) Hm Ha Hs Hf). reflexivity.
+  Qed.
+
+  Theorem next_tokens_at_end : forall st lexdis,
+    next_tokens terms rx in_len stop_id consume_input lexdis st in_len
+    = if has_key stop_id (st_actions st) then [(stop_id, 0)] else [].
+  Proof.
+    intros st lexdis. unfold next_tokens. rewrite N.ltb_irrefl, N.eqb_refl.
+    rewrite orb_true_r, andb_true_r, app_nil_r.
+    destruct (has_key stop_id (st_actions st)); destruct lexdis; reflexivity.
+  Qed.
+End Assembled.
+
+Theorem mark_is_flag : forall (l : list aterm) (i : nat) (t : aterm) (m : bool),
+  nth_error l i = Some t -> at_finish t = Some m -> nth_error (finish_flags l) i = Some m.
+Proof. intros l i t m Hn Hm. rewrite finish_flags_ffwd. eapply ffwd_nth_marked; eassumption. Qed.
